@@ -401,8 +401,11 @@ func (p *proxyConn) handle() error {
 
 func (p *proxyConn) writeErrorResponse(req *http.Request, err error) error {
 	res := maybeConnectErrorResponse(err)
+	var proxyAuthenticate []string
 	if res == nil {
 		res = p.errorResponse(req, err)
+		// The challenge issued by this proxy is meant for the client, it must survive the hop-by-hop removal.
+		proxyAuthenticate = res.Header.Values("Proxy-Authenticate")
 	} else {
 		// The response was built for the transport's CONNECT request, bind it to the client's request.
 		res.Request = req
@@ -413,6 +416,9 @@ func (p *proxyConn) writeErrorResponse(req *http.Request, err error) error {
 		if !p.WithoutWarning {
 			proxyutil.Warning(res.Header, err)
 		}
+	}
+	if len(proxyAuthenticate) > 0 {
+		res.Header["Proxy-Authenticate"] = proxyAuthenticate
 	}
 	return p.writeResponse(res)
 }
